@@ -2,6 +2,7 @@ package forwarder
 
 import (
 	"fmt"
+	"math"
 	"net"
 	"sync"
 	"syscall"
@@ -378,6 +379,39 @@ func (g *Gtp5g) newPdi(i *ie.IE) (nl.AttrList, error) {
 	return attrs, nil
 }
 
+// checkAttrLen returns an error if an attribute of the tree cannot be encoded:
+// the length field of a netlink attribute (header included) has 16 bits, and
+// the encoder panics or truncates when a longer attribute wraps around.
+func checkAttrLen(attrs nl.AttrList) error {
+	for _, a := range attrs {
+		if _, err := attrLen(a); err != nil {
+			return err
+		}
+	}
+	return nil
+}
+
+func attrLen(a nl.Attr) (int, error) {
+	n := syscall.NLA_HDRLEN
+	switch v := a.Value.(type) {
+	case nil:
+	case nl.AttrList:
+		for _, c := range v {
+			m, err := attrLen(c)
+			if err != nil {
+				return 0, err
+			}
+			n += (m + syscall.NLA_ALIGNTO - 1) &^ (syscall.NLA_ALIGNTO - 1)
+		}
+	default:
+		n += v.Len()
+	}
+	if n > math.MaxUint16 {
+		return 0, errors.Errorf("netlink attribute %v too long: %v octets", a.Type, n)
+	}
+	return n, nil
+}
+
 func (g *Gtp5g) CreatePDR(lSeid uint64, req *ie.IE) error {
 	var pdrid uint64
 	var attrs []nl.Attr
@@ -468,6 +502,9 @@ func (g *Gtp5g) CreatePDR(lSeid uint64, req *ie.IE) error {
 		Value: nl.AttrString(gtp5gnl.PdrAddrForNetlink),
 	})
 
+	if err := checkAttrLen(attrs); err != nil {
+		return err
+	}
 	oid := gtp5gnl.OID{lSeid, pdrid}
 	return gtp5gnl.CreatePDROID(g.client, g.link.link, oid, attrs)
 }
@@ -549,6 +586,9 @@ func (g *Gtp5g) UpdatePDR(lSeid uint64, req *ie.IE) error {
 		}
 	}
 
+	if err := checkAttrLen(attrs); err != nil {
+		return err
+	}
 	oid := gtp5gnl.OID{lSeid, pdrid}
 	return gtp5gnl.UpdatePDROID(g.client, g.link.link, oid, attrs)
 }
@@ -686,6 +726,9 @@ func (g *Gtp5g) CreateFAR(lSeid uint64, req *ie.IE) error {
 		}
 	}
 
+	if err := checkAttrLen(attrs); err != nil {
+		return err
+	}
 	oid := gtp5gnl.OID{lSeid, farid}
 	return gtp5gnl.CreateFAROID(g.client, g.link.link, oid, attrs)
 }
@@ -749,6 +792,9 @@ func (g *Gtp5g) UpdateFAR(lSeid uint64, req *ie.IE) error {
 		}
 	}
 
+	if err := checkAttrLen(attrs); err != nil {
+		return err
+	}
 	if newAct != nil {
 		// after the loop: FAR ID may follow Apply Action in the IE
 		g.applyAction(lSeid, int(farid), *newAct)
